@@ -113,12 +113,14 @@ type Gen struct {
 	variantAtHead map[*ssa.BasicBlock]string
 	entryByteMem string
 	heapKind     map[string]Kind
+	sliceKeep    map[ssa.Instruction]bool
 	ownLocsDone  bool
 	ownLocsCache []modLoc
 	inFrameEval  bool
 }
 
 type Hooks struct {
+	sliceGlobals map[string]bool // package initialiser slicing: names of the globals of interest
 	onStore  func(g *Gen, st *State, p *Val, pos token.Pos, text string)
 	onAppend func(g *Gen, st *State, s *Val, n string, pos token.Pos, text string)
 	onCopy   func(g *Gen, st *State, d *Val, n string, pos token.Pos, text string)
@@ -974,7 +976,11 @@ func (g *Gen) buildSrcText() {
 		case *ast.SliceExpr:
 			g.srcText[x.Lbrack] = text(x)
 		case *ast.CallExpr:
-			g.srcText[x.Lparen] = text(x.Fun)
+			if id, ok := x.Fun.(*ast.Ident); ok && (id.Name == "append" || id.Name == "copy") {
+				g.srcText[x.Lparen] = text(x)
+			} else {
+				g.srcText[x.Lparen] = text(x.Fun)
+			}
 		case *ast.TypeAssertExpr:
 			g.srcText[x.Lparen] = text(x)
 		case *ast.SelectorExpr:
